@@ -123,6 +123,7 @@ def run(ctx):
         detail = "%s of %s via %s: %s" % (ev["op"], meta[tid]["target"], meta[tid]["how"],
                                           {k: v for k, v in meta[tid].items() if k not in ("path",)})
         ctx.report(clause, detail[:400], {"meta": meta[tid], "trace": traces[tid], "event": l})
+    ctx.require_ops("Trace_Copy", ["copy", "mutate"])
     ctx.sample({"meta": meta[0], "copy_event": {k: traces[0][0][k] for k in ("how", "target", "orig", "copy", "worig", "wcopy")}})
     ctx.sample({"meta": meta[-1]})
     ctx.assumptions += [
